@@ -311,12 +311,83 @@ LOG_EXEMPT = {
 }
 
 
+# loop variables bound under `if LOG:` that have the name of a program variable of the enclosing function: allowed only with
+# a justification why the clobbered value is never read afterwards
+LOG_LOOPVAR_EXEMPT = {
+    ('pyasn1/codec/ber/decoder.py', '__call__', 'firstOctet'):
+        'SingleItemDecoder.__call__: the LOG block sits in the state stGetValueDecoderByAsn1Spec; firstOctet is read only in '
+        'stDecodeTag and stDecodeLength, each of which assigns it from a fresh read before its first use (paper argument over '
+        'the state arms)',
+}
+
+
+def _binds(stmt, name):
+    """does this statement (not its nested blocks' later flow) bind `name` before control reaches what follows it"""
+    if isinstance(stmt, ast.For):
+        return any(isinstance(t, ast.Name) and t.id == name for t in ast.walk(stmt.target))
+    if isinstance(stmt, ast.Assign):
+        return any(isinstance(t, ast.Name) and t.id == name for tg in stmt.targets for t in ast.walk(tg))
+    return False
+
+
+def _log_loopvar_clashes(rel, tree):
+    """(function, name, line): a `for` target under `if LOG:` whose name is also read outside the LOG blocks of the function at a
+    place that is not freshly bound -- i.e. the read is neither inside a `for` over that very name nor preceded, in its own or an
+    enclosing statement list, by a `for`/assignment binding it"""
+    out = []
+    for fn in [x for x in ast.walk(tree) if isinstance(x, ast.FunctionDef)]:
+        under_log = set()
+        for node in ast.walk(fn):
+            if isinstance(node, ast.If) and is_log_test(node.test):
+                for x in ast.walk(node):
+                    under_log.add(id(x))
+        loopvars = {}
+        for node in ast.walk(fn):
+            if isinstance(node, (ast.For, ast.comprehension)) and id(node) in under_log:
+                for t in ast.walk(node.target):
+                    if isinstance(t, ast.Name):
+                        loopvars[t.id] = getattr(node, 'lineno', 0)
+        if not loopvars:
+            continue
+        parent = {}
+        for node in ast.walk(fn):
+            for fld, val in ast.iter_fields(node):
+                if isinstance(val, list):
+                    for k, ch in enumerate(val):
+                        if isinstance(ch, ast.AST):
+                            parent[id(ch)] = (node, fld, k)
+                elif isinstance(val, ast.AST):
+                    parent[id(val)] = (node, fld, None)
+
+        def fresh(load):
+            name, cur = load.id, load
+            while id(cur) in parent:
+                par, fld, k = parent[id(cur)]
+                if isinstance(par, ast.For) and fld == 'body' and _binds(par, name) and id(par) not in under_log:
+                    return True
+                if k is not None and fld in ('body', 'orelse', 'finalbody'):
+                    for prev in getattr(par, fld)[:k]:
+                        if id(prev) not in under_log and _binds(prev, name):
+                            return True
+                if par is fn:
+                    break
+                cur = par
+            return False
+        seen = set()
+        for node in ast.walk(fn):
+            if isinstance(node, ast.Name) and isinstance(node.ctx, ast.Load) and node.id in loopvars and \
+                    id(node) not in under_log and node.id not in seen and not fresh(node):
+                seen.add(node.id)
+                out.append((fn.name, node.id, loopvars[node.id]))
+    return out
+
+
 def g_log_blocks(out):
     """C12: dropping `if LOG:` blocks at extraction is sound and logging cannot change results: a LOG block contains no
     assignment to program variables, no control flow, and no stream access other than the position-neutral
     peekIntoStream (contracts codec.streaming::peekIntoStream[*]: position restored)"""
     bad, n = [], 0
-    exempt_used = []
+    exempt_used, exempt_vars = [], []
     for rel in ('pyasn1/codec/ber/decoder.py', 'pyasn1/codec/ber/encoder.py', 'pyasn1/codec/cer/decoder.py',
                 'pyasn1/codec/cer/encoder.py', 'pyasn1/codec/der/decoder.py', 'pyasn1/codec/der/encoder.py',
                 'pyasn1/codec/native/decoder.py', 'pyasn1/codec/native/encoder.py'):
@@ -348,8 +419,17 @@ def g_log_blocks(out):
                                     exempt_used.append('%s:%d %s' % (rel, x.lineno, nm))
                                     continue
                                 bad.append('%s:%d touches the stream under LOG: %s' % (rel, x.lineno, nm))
-    ob(out, 'frame::codecs#log-blocks-effect-free', not bad and len(exempt_used) <= 1,
-       '; '.join(bad[:6]) or '%d `if LOG:` blocks; exempt with justification: %s' % (n, exempt_used),
+    for rel in ('pyasn1/codec/ber/decoder.py', 'pyasn1/codec/ber/encoder.py', 'pyasn1/codec/cer/decoder.py',
+                'pyasn1/codec/cer/encoder.py', 'pyasn1/codec/der/decoder.py', 'pyasn1/codec/der/encoder.py',
+                'pyasn1/codec/native/decoder.py', 'pyasn1/codec/native/encoder.py'):
+        for fname, name, line in _log_loopvar_clashes(rel, parse(rel)):
+            if (rel, fname, name) in LOG_LOOPVAR_EXEMPT:
+                exempt_vars.append('%s:%s %s' % (rel, fname, name))
+                continue
+            bad.append('%s:%d loop variable %s bound under LOG is a program variable of %s (read outside the LOG blocks)' % (
+                rel, line, name, fname))
+    ob(out, 'frame::codecs#log-blocks-effect-free', not bad and len(exempt_used) <= 1 and len(exempt_vars) <= 1,
+       '; '.join(bad[:6]) or '%d `if LOG:` blocks; exempt with justification: %s %s' % (n, exempt_used, exempt_vars),
        witness={'sites': bad}, n=n)
 
 
